@@ -31,3 +31,56 @@ func validateMaps(env *Environment, errorSink *validation.ErrorSink) *Environmen
 
 	return env
 }
+
+// A type parameter is accepted as a map key type in a generic definition; once the definition
+// is given type arguments the key type has to be a primitive like any other.
+func validateMapsOfGenericInstances(env *Environment, errorSink *validation.ErrorSink) *Environment {
+	if len(errorSink.Errors) > 0 {
+		// generic references have not been converted
+		return env
+	}
+
+	// the outermost reference with type arguments whose instantiated definition is being visited
+	var useSite Node
+	reported := make(map[string]bool)
+	report := func() {
+		if where := useSite.GetNodeMeta().String(); !reported[where] {
+			reported[where] = true
+			errorSink.Add(validationError(useSite, "map key type must be a primitive scalar type, which the type arguments given here do not satisfy"))
+		}
+	}
+
+	Visit(env, func(self Visitor, node Node) {
+		switch t := node.(type) {
+		case *SimpleType:
+			if useSite == nil {
+				// inside an instantiated definition the arguments are met where the definition uses its parameters
+				self.VisitChildren(node)
+			}
+			if len(t.ResolvedDefinition.GetDefinitionMeta().TypeArguments) > 0 {
+				outerUseSite := useSite
+				if useSite == nil {
+					useSite = t
+				}
+				self.Visit(t.ResolvedDefinition)
+				useSite = outerUseSite
+			}
+			return
+		case *Map:
+			if useSite != nil {
+				if st, ok := GetUnderlyingType(t.KeyType).(*SimpleType); ok {
+					switch st.ResolvedDefinition.(type) {
+					case PrimitiveDefinition, *GenericTypeParameter:
+					default:
+						report()
+					}
+				} else {
+					report()
+				}
+			}
+		}
+		self.VisitChildren(node)
+	})
+
+	return env
+}
